@@ -2,6 +2,7 @@ package main
 
 import (
 	"fmt"
+	"strings"
 
 	"github.com/grafana/cog/internal/ast"
 )
@@ -27,10 +28,15 @@ type irOpts struct {
 	Hints         bool
 	CaseVariants  bool // object names that differ only in letter case across packages
 	NumericEnumNames bool
+	// tagged classes (kept out of the main corpora; see DESIGN §3.10)
+	NestedUnions  bool // a union somewhere below a union branch
+	AliasObjects  bool // objects whose type is a reference
+	UniqueNames   bool // object names unique across packages
+	inUnion       int
 }
 
 func defaultIROpts() irOpts {
-	return irOpts{Pkgs: 2, MaxObjs: 7, Depth: 3, Intersections: true, ConstRefs: true, Unions: true, AnonStructs: true, AnonEnums: true, Defaults: true, Hints: true}
+	return irOpts{Pkgs: 2, MaxObjs: 7, Depth: 3, Intersections: true, NestedUnions: true, AliasObjects: true, ConstRefs: true, Unions: true, AnonStructs: true, AnonEnums: true, Defaults: true, Hints: true}
 }
 
 type plannedObj struct {
@@ -69,6 +75,13 @@ func genSchemas(rng *RNG, o irOpts) (ast.Schemas, map[string]int) {
 		n := rng.Range(2, max(2, o.MaxObjs))
 		names := append([]string(nil), objNames...)
 		shuffle(rng, names)
+		if o.UniqueNames {
+			// disjoint slices of the name pool per package
+			per := len(names) / max(1, npk)
+			sorted := append([]string(nil), objNames...)
+			names = append([]string(nil), sorted[p*per:(p+1)*per]...)
+			shuffle(rng, names)
+		}
 		for i := 0; i < n && i < len(names); i++ {
 			kind := g.pickObjKind(i)
 			name := names[i]
@@ -95,13 +108,22 @@ func genSchemas(rng *RNG, o irOpts) (ast.Schemas, map[string]int) {
 		// a discriminated family per package (sometimes)
 		if o.Unions && rng.Chance(0.6) {
 			fam := []string{"Circle", "Square", "Tri"}
+			if o.UniqueNames {
+				for fi := range fam {
+					fam[fi] = fam[fi] + strings.ToUpper(pkg[len(pkg)-1:])
+				}
+			}
 			k := rng.Range(2, 3)
 			for i := 0; i < k; i++ {
 				po := plannedObj{pkg: pkg, name: fam[i], kind: "famStruct", famKind: lowerFirst(fam[i]), idx: len(g.objs)}
 				g.byPkg[pkg] = append(g.byPkg[pkg], len(g.objs))
 				g.objs = append(g.objs, po)
 			}
-			po := plannedObj{pkg: pkg, name: "Shape", kind: "unionRefs", idx: len(g.objs)}
+			shapeName := "Shape"
+			if o.UniqueNames {
+				shapeName += strings.ToUpper(pkg[len(pkg)-1:])
+			}
+			po := plannedObj{pkg: pkg, name: shapeName, kind: "unionRefs", idx: len(g.objs)}
 			g.byPkg[pkg] = append(g.byPkg[pkg], len(g.objs))
 			g.objs = append(g.objs, po)
 		}
@@ -174,6 +196,9 @@ func (g *irGen) pickObjKind(i int) string {
 	case r < 68:
 		return "const"
 	case r < 75:
+		if !g.o.AliasObjects {
+			return "struct"
+		}
 		return "alias"
 	case r < 81:
 		return "array"
@@ -557,7 +582,15 @@ func (g *irGen) constRef(po plannedObj) (ast.Type, bool) {
 }
 
 func (g *irGen) union(depth int, po plannedObj) ast.Type {
+	if g.o.inUnion > 0 && !g.o.NestedUnions {
+		return g.scalar(false)
+	}
+	g.o.inUnion++
+	defer func() { g.o.inUnion-- }()
 	r := g.rng.Intn(100)
+	if !g.o.NestedUnions && r >= 82 && r < 92 {
+		r = 10 // no explicit nested unions in the main corpus
+	}
 	switch {
 	case r < 35:
 		g.tag("union:scalars")
